@@ -118,3 +118,75 @@ theorem filterMap_head_ne_nil {cs : List (List Inst)} (h : cs ≠ []) (hne : ∀
     | cons a l => simp
 
 end Pyx.Reflexive
+
+namespace Pyx.Reflexive
+open Pyx.Meta
+
+/-- a duplicate-free list of naturals below `N` has at most `N` elements -/
+theorem nodup_bound : ∀ (N : Nat) (l : List Nat), l.Nodup → (∀ x ∈ l, x < N) → l.length ≤ N
+  | 0, l, _, h => by
+    cases l with
+    | nil => simp
+    | cons a l => exact absurd (h a (by simp)) (by omega)
+  | N + 1, l, hnd, h => by
+    have h1 := nodup_bound N (l.erase N) (hnd.erase N) (by
+      intro x hx
+      have hx' := (hnd.mem_erase_iff.1 hx)
+      have := h x hx'.2
+      have hne : x ≠ N := hx'.1
+      omega)
+    have := List.length_erase_le (a := N) (l := l)
+    by_cases hN : N ∈ l
+    · rw [List.length_erase_of_mem hN] at h1; omega
+    · rw [List.erase_of_not_mem hN] at h1; omega
+
+/-- the visited part of a walk: duplicate-free, below `N`, containing the start and the current end,
+    every visited node other than the start having its predecessor among the visited nodes other than
+    the current end -/
+structure WalkInv (back : Inst → Option Inst) (N : Nat) (first x : Inst) (visited : List Inst) : Prop where
+  nodup : visited.Nodup
+  bound : ∀ v ∈ visited, v < N
+  cur : x ∈ visited
+  pred : ∀ v ∈ visited, v ≠ first → ∃ p ∈ visited, p ≠ x ∧ back p = some v
+
+/-- with injective links over `N` instances the loop ends: more fuel than the number of instances
+    still unvisited never changes the result -/
+theorem walk_stable (back : Inst → Option Inst) (set : List Inst) (N : Nat) (first : Inst)
+    (hinj : ∀ a b c, back a = some c → back b = some c → a = b) (hbound : ∀ a b, back a = some b → b < N) :
+    ∀ (d : Nat) (visited : List Inst) (x : Inst), WalkInv back N first x visited → N - visited.length ≤ d →
+    ∀ fuel, d + 1 ≤ fuel → walk back set first fuel x = walk back set first (d + 1) x
+  | d, visited, x, inv, hd, fuel, hf => by
+    obtain ⟨f, rfl⟩ : ∃ f, fuel = f + 1 := ⟨fuel - 1, by omega⟩
+    rw [walk, walk]
+    congr 1
+    cases hb : back x with
+    | none => rfl
+    | some y =>
+      simp only
+      by_cases hy : y = first
+      · simp [hy]
+      · simp only [hy, ↓reduceIte]
+        have hynv : y ∉ visited := by
+          intro hyv
+          obtain ⟨p, _, hpx, hp⟩ := inv.pred y hyv hy
+          exact hpx (hinj p x y hp hb)
+        have inv' : WalkInv back N first y (y :: visited) := by
+          refine ⟨List.nodup_cons.mpr ⟨hynv, inv.nodup⟩, ?_, by simp, ?_⟩
+          · intro v hv
+            rcases List.mem_cons.mp hv with rfl | hv
+            · exact hbound x _ hb
+            · exact inv.bound v hv
+          · intro v hv hvf
+            rcases List.mem_cons.mp hv with rfl | hv
+            · exact ⟨x, by simp [inv.cur], fun h => hynv (h ▸ inv.cur), hb⟩
+            · obtain ⟨p, hpv, _, hp⟩ := inv.pred v hv hvf
+              exact ⟨p, by simp [hpv], fun h => hynv (h ▸ hpv), hp⟩
+        have hlen := nodup_bound N (y :: visited) inv'.nodup inv'.bound
+        simp only [List.length_cons] at hlen
+        cases d with
+        | zero => omega
+        | succ d' =>
+          exact walk_stable back set N first hinj hbound d' (y :: visited) y inv'
+            (by simp only [List.length_cons]; omega) f (by omega)
+
+end Pyx.Reflexive
